@@ -42,7 +42,7 @@ bools, floats keep their bits, text stays text, tuples/frozensets/slices keep th
 changes. -/
 theorem plain_by_value (v : Val) (hd : dumpable v = true) (t : Tbl) (s : Side) :
     box t (.imm v) = .ok (.value v, t) ∧ unbox s (.value v) = .ok (.imm v, s) := by
-  simp [box, unbox, hd]
+  simp [box, unbox, resolve, create, hd]
 
 /-- **By value exactly for plain values.**  `_box` answers `VALUE` iff the value is built only from the immutable
 plain types (exact types); otherwise the label is a tuple of labels or a reference. -/
@@ -86,7 +86,7 @@ theorem tuple_with_reference_not_value (xs : List PyVal) (t t' : Tbl) (l : Label
 theorem echo_identity (id : Id) (pid : Nat) (tHolder : Tbl) (owner : Side) (n : Nat) (h : owner.tbl id = some n) :
     box tHolder (.proxy id pid) = .ok (.localRef id, tHolder)
     ∧ unbox owner (.localRef id) = .ok (.obj id, owner) := by
-  simp [box, unbox, h]
+  simp [box, unbox, resolve, create, h]
 
 /-- ... and while the peer holds a live proxy the entry is there: in every state the C10 machine can reach
 (any interleaving of sends, drops, hand-backs and deliveries), a live proxy's `LOCAL_REF` resolves to the object. -/
@@ -94,12 +94,31 @@ theorem echo_identity_reachable (ops : List Op) (k : Id) (hlive : (run St.init o
     (owner : Side) (hs : owner.tbl = (run St.init ops).tbl) :
     unbox owner (.localRef k) = .ok (.obj k, owner) := by
   obtain ⟨n, hn⟩ := Rpyc.Props.C10.alive_while_held ops k (Or.inl hlive)
-  simp [unbox, hs, hn]
+  simp [unbox, resolve, create, hs, hn]
 
 /-- a `LOCAL_REF` for a key the table does not hold is refused with KeyError, an unknown label with ValueError -/
 theorem unbox_refuses (s : Side) (id : Id) (tag : Nat) (h : s.tbl id = none) :
     unbox s (.localRef id) = .error .keyError ∧ unbox s (.other tag) = .error .valueError := by
-  simp [unbox, h]
+  simp [unbox, resolve, create, h]
+
+/-- **`_unbox` in two passes** (`_resolve_local_refs`, then proxy creation) accepts exactly the packages the
+one-pass walk accepts, with the same values and the same counts — the order matters only for errors and for what a
+nested serve() can do in between (C10: `never_keyError_nested`, `onePass_order_counterexample`). -/
+theorem unbox_two_pass_agrees (s s' : Side) (l : Label) (y : PyVal) :
+    unbox s l = .ok (y, s') ↔ unboxOnePass s l = .ok (y, s') := unbox_iff_onePass s s' l y
+
+/-- **KeyError first.**  A package that refers to a key the receiver's table does not hold is refused with KeyError in
+the first pass: wherever the reference sits, whatever else the package carries (fresh references, unknown labels),
+and before any proxy is created or counted. -/
+theorem missing_local_ref_refused_first (s : Side) (l : Label) (h : ∃ id ∈ l.localRefs, s.tbl id = none) :
+    unbox s l = .error .keyError := by
+  simp [unbox, resolve_keyError_of_missing l s.tbl h]
+
+/-- where the two orders differ: an unknown label in front of a missing local reference (ValueError before, KeyError
+now), and a fresh reference in front of it (before: the proxy was created and counted first) -/
+example : unbox Side.init (.tuple [.other 9, .localRef 5]) = .error .keyError
+    ∧ unboxOnePass Side.init (.tuple [.other 9, .localRef 5]) = .error .valueError
+    ∧ unbox Side.init (.tuple [.remoteRef 1, .tuple [.localRef 5]]) = .error .keyError := ⟨rfl, rfl, rfl⟩
 
 /-- **Proxy uniqueness.**  Receiving a key whose proxy is alive returns that very proxy object (and counts the
 reference); the identity of every live proxy is untouched. -/
@@ -108,12 +127,12 @@ theorem proxy_unique (s : Side) (id : Id) (h : s.px id ≠ none) :
       ∧ s'.px = s.px.recv id ∧ s'.next = s.next := by
   cases hp : s.px id with
   | none => exact absurd hp h
-  | some c => exact ⟨{ s with px := s.px.recv id }, by simp [unbox, unboxRef, hp], rfl, rfl, rfl⟩
+  | some c => exact ⟨{ s with px := s.px.recv id }, by simp [unbox, resolve, create, unboxRef, hp], rfl, rfl, rfl⟩
 
 /-- the same remote object received twice in a row is one proxy, whether or not one existed before -/
 theorem same_proxy_twice (s s1 s2 : Side) (id : Id) (y1 y2 : PyVal)
     (h1 : unbox s (.remoteRef id) = .ok (y1, s1)) (h2 : unbox s1 (.remoteRef id) = .ok (y2, s2)) : y1 = y2 := by
-  simp only [unbox, Except.ok.injEq] at h1 h2
+  simp only [unbox, resolve, create, Except.ok.injEq] at h1 h2
   cases hp : s.px id with
   | some c =>
     simp only [unboxRef, hp] at h1
@@ -139,7 +158,7 @@ theorem fresh_proxy_is_new (s : Side) (id : Id) (hinv : PxInv s) (hdead : s.px i
     ∃ s', unbox s (.remoteRef id) = .ok (.proxy id s.next, s') ∧ s'.px id = some 1
       ∧ ∀ k, s.px k ≠ none → s.pid k ≠ s.next := by
   refine ⟨{ s with px := s.px.recv id, pid := fun j => if j = id then s.next else s.pid j, next := s.next + 1 },
-    by simp [unbox, unboxRef, hdead], by simp [Tbl.recv, hdead, hit], ?_⟩
+    by simp [unbox, resolve, create, unboxRef, hdead], by simp [Tbl.recv, hdead, hit], ?_⟩
   intro k hk e
   have := hinv.below k hk
   omega
